@@ -5,7 +5,7 @@ A case is a kymograph description plus a history over
     ["rgb", i]           objs[i].get_image("rgb")                                                  -> a handle (kept)
     ["w", h, j, v]       in-place write through the h-th handle: element j (row-major) := v        -> refused / written
     ["v", i, "crop", lo, hi] | ["v", i, "flip"] | ["v", i, "down", k]      crop_by_distance / flip / downsampled_by(position)
-    ["c", i]             copy.copy
+    ["c", i]             copy.copy;   ["c", i, "kbp"]   calibrate_to_kbp (to the model the same step: factories carried, no table)
 Three parties answer every step:
     implementation   the real objects, the whole history in order, writes included               -> op c19.alias
     twins            for every step a FRESHLY built kymograph on which only the derivations that made the addressed object
@@ -38,7 +38,7 @@ def show(a):
 
 def derive(o, op):
     if op[0] == "c":
-        return _copy.copy(o)
+        return o.calibrate_to_kbp(12.5) if len(op) > 2 else _copy.copy(o)  # both: factories carried, memo table not
     if op[2] == "crop":
         px = o.pixelsize[0]
         return o.crop_by_distance((op[3] + 0.25) * px, (op[4] - 0.25) * px)
@@ -149,7 +149,7 @@ def tok(op):
     if op[0] == "w":
         return f"w:{op[1]}:{op[2]}:{op[3]}"
     if op[0] == "c":
-        return f"c:{op[1]}"
+        return f"c:{op[1]}"  # copy.copy and calibrate_to_kbp
     return f"v:{op[1]}:" + ".".join(str(x) for x in op[2:])
 
 
@@ -202,7 +202,7 @@ class Tr:
     """rows of every object and size of every handle along a history (so that generated steps are valid)"""
 
     def __init__(self, P, lines):
-        self.lines, self.rows, self.proc, self.sizes, self.hist = lines, [P], [False], [], []
+        self.lines, self.rows, self.proc, self.kbp, self.sizes, self.hist = lines, [P], [False], [False], [], []
 
     def steps(self, small):
         out = []
@@ -216,6 +216,8 @@ class Tr:
                 out.append(["w", h, n - 1, -7])
         for i, r in enumerate(self.rows):
             out.append(["c", i])
+            if not small and not self.kbp[i]:
+                out.append(["c", i, "kbp"])
             if r >= 2:
                 out.append(["v", i, "crop", 1, r])
                 out.append(["v", i, "down", 2])
@@ -234,14 +236,16 @@ class Tr:
         elif op[0] == "c":
             self.rows.append(self.rows[op[1]])
             self.proc.append(self.proc[op[1]])
+            self.kbp.append(self.kbp[op[1]] or len(op) > 2)
         elif op[0] == "v":
             r = self.rows[op[1]]
             self.rows.append(op[4] - op[3] if op[2] == "crop" else r // op[3] if op[2] == "down" else r)
             self.proc.append(True if op[2] != "flip" else self.proc[op[1]])
+            self.kbp.append(self.kbp[op[1]])
 
     def fork(self):
         t = Tr(0, self.lines)
-        t.rows, t.proc, t.sizes, t.hist = list(self.rows), list(self.proc), list(self.sizes), list(self.hist)
+        t.rows, t.proc, t.kbp, t.sizes, t.hist = list(self.rows), list(self.proc), list(self.kbp), list(self.sizes), list(self.hist)
         return t
 
 
@@ -300,7 +304,7 @@ def coverage(results):
             answers = []
         for n, op in enumerate(c["hist"]):
             if op[0] in ("v", "c"):
-                name = "copy" if op[0] == "c" else op[2]
+                name = ("calibrate_to_kbp" if len(op) > 2 else "copy") if op[0] == "c" else op[2]
                 cov["derive"][name] = cov["derive"].get(name, 0) + 1
                 kinds.append(kinds[op[1]] if op[0] == "c" else op[2])
                 tkinds.append(tkinds[op[1]] if op[0] == "c" or op[2] == "flip" else op[2])
